@@ -431,6 +431,36 @@ func runC01(c *config) {
 	for i, in := range rtInputs(c, "c01", 60*c.scale) {
 		c01One(c, in, i < 1)
 	}
+	// lines with many optional parts, written in the one order LLVM's grammar allows (and its printer uses): each
+	// must come out as it went in (the token comparison above is blind to order)
+	for _, l := range []string{
+		"define void @f() section \"s\" partition \"p\" comdat($c) align 16 gc \"shadow-stack\" prefix i32 1 prologue i32 2 personality i8* null {",
+		"define internal fastcc void @f() unnamed_addr #0 comdat align 4 gc \"x\" {",
+		"declare void @f() align 8 gc \"x\" prefix i32 1",
+		"@g = internal unnamed_addr addrspace(1) constant i32 0, section \"s\", partition \"p\", comdat($c), align 8",
+		"@g = external thread_local(initialexec) local_unnamed_addr global i32, align 4",
+		"@a = weak_odr hidden unnamed_addr alias i32, i32* @t, partition \"p\"",
+	} {
+		src := "$c = comdat any\n$f = comdat any\n@t = global i32 0\nattributes #0 = { nounwind }\n" + l + "\n"
+		if strings.HasSuffix(l, "{") {
+			src += "\tret void\n}\n"
+		}
+		if strings.HasPrefix(l, "@g") || strings.HasPrefix(l, "@a") {
+			src = strings.Replace(src, "@t = global i32 0\n", "@t = global i32 0\n", 1)
+		}
+		m, oc, msg := parseGuard(src)
+		o.Stat("verbatim_lines")
+		if oc != ocOk {
+			o.Fail("meaning_preserved", "", "a line in LLVM's own order of optional parts is rejected", map[string]interface{}{"line": l, "msg": msg})
+			continue
+		}
+		y, oc, msg := printGuard(m)
+		if oc != ocOk || !strings.Contains("\n"+y, "\n"+l+"\n") {
+			o.Fail("meaning_preserved", "", "a line in LLVM's own order of optional parts is not printed as it was written", map[string]interface{}{"line": l, "printed": y, "msg": msg})
+		} else {
+			o.Pass("verbatim_line")
+		}
+	}
 	if c.tier == "thorough" {
 		c01Llvm(c)
 	}
@@ -870,6 +900,13 @@ func c03Module(r *rng, i int) *ir.Module {
 		x.Mod(x, new(big.Int).Lsh(big.NewInt(1), uint(w-1)))
 		m.NewGlobalDef(fmt.Sprintf("wide%d", w), &constant.Int{Typ: types.NewInt(w), X: x})
 	}
+	// floating-point constants the printer writes in decimal (a digit or two times a power of ten) and in hexadecimal
+	for k, v := range []float64{1e6, 2e9, 25e5, 1.5e7, 1e21, 0.1, 3, 1e-3 * float64(1+r.intn(9))} {
+		m.NewGlobalDef(fmt.Sprintf("fd%d", k), constant.NewFloat(types.Double, v))
+	}
+	for k, v := range []float64{1e6, 3e7, 2.5, 16777216} {
+		m.NewGlobalDef(fmt.Sprintf("ff%d", k), constant.NewFloat(types.Float, v))
+	}
 	// unnamed entities of every kind, so that the numbering pass and the printing order have to agree
 	if i%2 == 1 {
 		m.NewAlias("", g1)
@@ -945,6 +982,25 @@ func c03Check(c *config, m *ir.Module, det map[string]interface{}, class string,
 		det["first_difference"] = diff
 		o.Fail("construct_print_parse", class, "an integer constant of the constructed module is read back as another value", det)
 		return
+	}
+	// ... and every floating-point constant the same number
+	f1, f2 := floatValues(m), floatValues(m2)
+	if len(f1) != len(f2) {
+		det["first_difference"] = fmt.Sprintf("%d floating-point constants constructed, %d re-parsed", len(f1), len(f2))
+		o.Fail("construct_print_parse", class, "a floating-point constant of the constructed module is read back as another value", det)
+		return
+	}
+	for i := range f1 {
+		a, _, e1 := big.ParseFloat(f1[i], 10, 256, big.ToNearestEven)
+		b, _, e2 := big.ParseFloat(f2[i], 10, 256, big.ToNearestEven)
+		if (e1 != nil || e2 != nil) && f1[i] == f2[i] {
+			continue
+		}
+		if e1 != nil || e2 != nil || a.Cmp(b) != 0 {
+			det["first_difference"] = f1[i] + "  |vs|  " + f2[i]
+			o.Fail("construct_print_parse", class, "a floating-point constant of the constructed module is read back as another value", det)
+			return
+		}
 	}
 	if c.tier == "thorough" && c03LLVMCheckable(text, det) {
 		if _, err := exec.LookPath("llvm-as"); err == nil {
@@ -1085,6 +1141,17 @@ func intValues(m *ir.Module) []string {
 	var out []string
 	for _, l := range shapeDump(m) {
 		if i := strings.Index(l, ".X = "); i >= 0 && !strings.ContainsAny(l[i+5:], ".eEIN") {
+			out = append(out, l[i+5:])
+		}
+	}
+	return out
+}
+
+// floatValues lists, in traversal order, the text of every big.Float reachable from the module
+func floatValues(m *ir.Module) []string {
+	var out []string
+	for _, l := range shapeDump(m) {
+		if i := strings.Index(l, ".X = "); i >= 0 && strings.ContainsAny(l[i+5:], ".eEIN") {
 			out = append(out, l[i+5:])
 		}
 	}
